@@ -582,7 +582,17 @@ def attribute(res_list):
                                               f"transition; fields {fields[:4]}", replay=replay))
                 # properties that own a differing field but whose predicate holds are not charged
             else:
-                for pid in sorted(set(o for _, o in fields)):
+                # in a walk, what reset() leaves behind (state, counter: C04_env_reset; initial observation:
+                # C08_initial) and the step counter / step-limit flag (C06_counter, C06_truncated) are stated outright
+                # by theorems of the model: a difference there is a failing input of that property, not mere drift
+                exact = [(n, o) for n, o in fields
+                         if (":reset." in n and n.rsplit(".", 1)[-1] in ("state", "steps", "last_obs"))
+                         or (":step." in n and n.rsplit(".", 1)[-1] in ("steps", "truncated"))]
+                for pid in sorted(set(o for _, o in exact)):
+                    findings.append(dict(property=pid, kind="failing-input",
+                                         what=f"environment walk: implementation and model differ in {[n for n, o in exact if o == pid][:3]}",
+                                         replay=dict(replay, kind="dyn-walk")))
+                for pid in sorted(set(o for _, o in fields) - set(o for _, o in exact)):
                     drift.append(dict(property=pid, kind="correspondence",
                                       what=f"model and implementation differ in {fields[:4]}",
                                       replay=replay))
